@@ -4,6 +4,7 @@ import (
 	"fmt"
 	"go/token"
 	"go/types"
+	"regexp"
 	"sort"
 
 	"golang.org/x/tools/go/ssa"
@@ -1058,4 +1059,181 @@ func ruleIndentSameBase(c *Ctx) []Obligation {
 		}
 	}
 	return []Obligation{ok(R, con, c.InstrPos(calls[0]), fmt.Sprintf("%d accountings, all from %s", len(calls), ref))}
+}
+
+// ---------------------------------------------------------------- NUM.BOUNDARYSYNTAX (hunt/h5/C10)
+
+func init() {
+	register(&Rule{Name: "NUM.BOUNDARYSYNTAX", Props: []string{"C10", "C15"}, Floor: 3,
+		Doc: "a boundary of a range or length restriction is matched against a constant pattern that denotes integer-value / decimal-value of RFC 7950 (evaluated here on witness texts) before it is accepted, and what is trimmed off it is optsep only",
+		Run: ruleNumBoundarySyntax})
+}
+
+func ruleNumBoundarySyntax(c *Ctx) []Obligation {
+	const R = "NUM.BOUNDARYSYNTAX"
+	pcr := c.Fn("yang.(YangRange).parseChildRanges")
+	if pcr == nil {
+		return []Obligation{undecided(R, "restriction parser", "-", "parseChildRanges not found")}
+	}
+	var obs []Obligation
+	// (a) the pattern
+	con := "the pattern a boundary is held to denotes integer-value / decimal-value"
+	var g *ssa.Global
+	var match *ssa.Call
+	c.eachInstrDeep(pcr, func(in ssa.Instruction) {
+		call, isC := in.(*ssa.Call)
+		if !isC || g != nil {
+			return
+		}
+		cal := call.Call.StaticCallee()
+		if cal == nil || cal.Signature.Recv() == nil || cal.Name() != "MatchString" || len(call.Call.Args) < 2 {
+			return
+		}
+		if u, isU := call.Call.Args[0].(*ssa.UnOp); isU {
+			if gl, isG := u.X.(*ssa.Global); isG {
+				g, match = gl, call
+			}
+		}
+	})
+	if g == nil {
+		return []Obligation{bad(R, con, c.Pos(pcr.Pos()), "a boundary goes to the number converters as it stands, and those accept more than a range may contain: a plus sign, leading zeros and other bases (\"010\" is 8, \"0x10\" 16), a decimal point with no digit on one side (\".\", \"5.\", \"0...5\")")}
+	}
+	pattern := ""
+	if initFn := c.SSA[modPath+"/pkg/yang"].Func("init"); initFn != nil {
+		eachInstr(initFn, func(in ssa.Instruction) {
+			call, isC := in.(*ssa.Call)
+			if !isC || !(calleeIs(call, "regexp", "MustCompile") || calleeIs(call, "regexp", "Compile")) {
+				return
+			}
+			for _, r := range *call.Referrers() {
+				if st, isS := r.(*ssa.Store); isS && st.Addr == ssa.Value(g) {
+					if s, isK := constString(call.Call.Args[0]); isK {
+						pattern = s
+					}
+				}
+			}
+		})
+	}
+	re, err := regexp.Compile(pattern)
+	if pattern == "" || err != nil {
+		obs = append(obs, undecided(R, con, c.InstrPos(match), "the pattern is not a constant compiled in the package initialiser"))
+	} else {
+		must := []string{"0", "-0", "7", "-12", "18446744073709551615", "-9223372036854775808", "0.5", "-3.14", "10.000000000000000001", "100"}
+		mustNot := []string{"", "+1", "+1.5", "01", "010", "-01", "0x10", "0b11", "0o17", "1_0", ".", "-.", ".5", "-.5", "5.", "0...5", "1..2", "1.2.3", " 1", "1 ", "1 ", " 1", "\u0085" + "1.5", "1e3", "--1", "-", "min", "max", "1\n"}
+		var wrong []string
+		for _, s := range must {
+			if !re.MatchString(s) {
+				wrong = append(wrong, fmt.Sprintf("rejects %q", s))
+			}
+		}
+		for _, s := range mustNot {
+			if re.MatchString(s) {
+				wrong = append(wrong, fmt.Sprintf("accepts %q", s))
+			}
+		}
+		if len(wrong) == 0 {
+			obs = append(obs, ok(R, con, c.InstrPos(match), fmt.Sprintf("constant %q evaluated on %d witness texts", pattern, len(must)+len(mustNot))))
+		} else {
+			if len(wrong) > 5 {
+				wrong = append(wrong[:5], fmt.Sprintf("… (%d in all)", len(wrong)))
+			}
+			obs = append(obs, bad(R, con, c.InstrPos(match), fmt.Sprintf("constant %q %s", pattern, joinStrings(wrong, ", "))))
+		}
+	}
+	// (b) a boundary that does not match is refused: the mismatch branch returns an error, and every return of the
+	// boundary parser that hands back a converted number is reached only past the match
+	con = "a boundary that does not match the pattern is refused"
+	refused := false
+	for _, r := range refsOf(match) {
+		var ifi *ssa.If
+		polarity := true
+		switch x := r.(type) {
+		case *ssa.If:
+			ifi = x
+		case *ssa.UnOp:
+			if x.Op == token.NOT {
+				for _, rr := range refsOf(x) {
+					if i2, isI := rr.(*ssa.If); isI {
+						ifi, polarity = i2, false
+					}
+				}
+			}
+		case *ssa.Phi:
+			// `err == nil && !match`: the materialised && feeds the If
+			for _, rr := range refsOf(x) {
+				if i2, isI := rr.(*ssa.If); isI {
+					ifi, polarity = i2, true
+				}
+			}
+		}
+		if ifi == nil {
+			continue
+		}
+		for _, s := range ifi.Block().Succs {
+			if blockReturnsError(s) {
+				refused = true
+			}
+		}
+		_ = polarity
+	}
+	// the `!m` may itself be an operand of a materialised &&
+	if !refused {
+		for _, r := range refsOf(match) {
+			if u, isU := r.(*ssa.UnOp); isU && u.Op == token.NOT {
+				for _, rr := range refsOf(u) {
+					if phi, isP := rr.(*ssa.Phi); isP {
+						for _, r3 := range refsOf(phi) {
+							if i3, isI := r3.(*ssa.If); isI {
+								for _, s := range i3.Block().Succs {
+									if blockReturnsError(s) {
+										refused = true
+									}
+								}
+							}
+						}
+					}
+				}
+			}
+		}
+	}
+	if refused {
+		obs = append(obs, ok(R, con, c.InstrPos(match), "a branch on the outcome of the match returns an error"))
+	} else {
+		obs = append(obs, bad(R, con, c.InstrPos(match), "the outcome of the match does not lead to an error return: the pattern is consulted and ignored"))
+	}
+	// (c) what is trimmed off a boundary
+	con = "only optsep (space, tab, line breaks) is trimmed off a boundary"
+	trimOK, trims := true, 0
+	why := ""
+	c.eachInstrDeep(pcr, func(in ssa.Instruction) {
+		call, isC := in.(*ssa.Call)
+		if !isC {
+			return
+		}
+		switch {
+		case calleeIs(call, "strings", "TrimSpace"):
+			trims++
+			trimOK = false
+			why = "strings.TrimSpace at " + c.InstrPos(call) + " also removes NBSP, EM SPACE, NEL, VT and FF"
+		case calleeIs(call, "strings", "Trim"):
+			trims++
+			cut, isK := constString(call.Call.Args[1])
+			if !isK {
+				trimOK, why = false, "the cut set at "+c.InstrPos(call)+" is not a constant"
+				return
+			}
+			for _, r := range cut {
+				if r != ' ' && r != '\t' && r != '\r' && r != '\n' {
+					trimOK, why = false, fmt.Sprintf("the cut set at %s holds %q", c.InstrPos(call), r)
+				}
+			}
+		}
+	})
+	switch {
+	case !trimOK:
+		obs = append(obs, bad(R, con, c.Pos(pcr.Pos()), why+": `range \"1\\u00a0..\\u00a05\"` is recorded as 1..5"))
+	default:
+		obs = append(obs, ok(R, con, c.Pos(pcr.Pos()), fmt.Sprintf("%d trimming call(s), each with a constant cut set within \" \\t\\r\\n\" (a character left on is refused by the pattern)", trims)))
+	}
+	return obs
 }
